@@ -1038,3 +1038,28 @@ def b15_assumed_matches_withdrawn(ctx) -> None:
             ctx.violation("B15", fa, "a pair that fails leaves in _order_map the matches that were made below it: some were accepted only because this pair was assumed valid "
                           "(recursive match through self._ancestors), and `_base_cases` later reads them back as 'already matched' -- specifications that are not isomorphic "
                           "are accepted, in one order of the arguments only")
+
+
+# ------------------------------------------------------------------ B16 what counts as a step of an equivalence path
+def b16_path_steps_filtered_by_equivalence(ctx) -> None:
+    """The rules compared along an equivalence path are the ones that are not equivalence
+    rules (`not rule.is_equivalence()`): the specification folds exactly the equivalence
+    rules into a path.  Another predicate (is_two_way: a two-way rule need not be an
+    equivalence) compares different sets of steps on the two sides than the specifications
+    will contain."""
+    P = ctx.P
+    m = P.need_method("EquivalenceRuleExtractor", "_nonequivalent_rules_in_equiv_path", own=True)
+    f = m.node
+    ctx.analysed(m)
+    ys = [y for y in C.yields_of(f) if isinstance(y, ast.Yield) and y.value is not None]
+    if not ys:
+        raise AnalysisError("B16: _nonequivalent_rules_in_equiv_path yields nothing")
+    for y in ys:
+        r = norm(y.value)
+        gs = {(norm(e), p_) for e, p_ in C.flatten_guards(C.guards(f, y))}
+        if (f"{r}.is_equivalence()", False) in gs:
+            ctx.ok("B16", "a step of an equivalence path is kept for comparison exactly when it is not an equivalence rule")
+        else:
+            other = sorted(t for t, p_ in gs if t.startswith(f"{r}."))
+            ctx.violation("B16", y, f"a step of an equivalence path is kept under {other or 'no test'}, not under `not {r}.is_equivalence()`: the steps compared are not the "
+                          "rules the two specifications will show outside their equivalence paths, and a non-isomorphic pair is returned")
